@@ -36,7 +36,7 @@ def purity_formulas(tier):
     CM = ('pred', '>=', ('*', F.C2, X), ('-', F.C1, Y))
     fs = list(F.F(1, U, B, [(PX, PY, X), (X, Y, X), (CL, CM, X)]))
     f2 = [f for f in F.F(2, U, B, [(X, Y, X)]) if F.size(f) == 2]
-    fs += f2[::5] if tier == 'quick' else f2
+    fs += f2[::5] if tier == 'quick' else f2[::2]
     return fs
 
 
@@ -86,7 +86,7 @@ def run_purity(shard, tier, res, mod):
             for i, j in itertools.permutations(range(len(traces)), 2):
                 if i not in results or j not in results:
                     continue
-                if (i + j) % (3 if tier == 'quick' else 1):
+                if (i + j) % (3 if tier == 'quick' else 2):
                     continue
                 res.evaluations += 1
                 d1 = dict({'time': list(range(len(traces[i][vs[0]])))}, **{v: list(traces[i][v]) for v in vs})
